@@ -270,6 +270,57 @@ def _part_b(ctx):
     sess.rig.close()
 
 
+def _part_d(ctx, n):
+    """Hand-over between the thread that receives segments and the thread that frames them: a frame arrives in two segments
+    a few microseconds apart, with nothing after it, under seeded yield injection. It must be delivered without further traffic."""
+    import time
+
+    from lib import sched
+
+    rng = ctx.rng
+    inj = sched.YieldInjector(["secsgem/common/protocol.py", "secsgem/hsms/protocol.py", "secsgem/common/protocol_dispatcher.py",
+                               "secsgem/common/byte_queue.py"])
+    inj.install()
+    sess = Session(ctx)
+    ho = _header_only()
+    sigs = set()
+    try:
+        for i in range(n):
+            st, fn = rng.choice(ho)
+            system = next(sess.sysgen)
+            frame = wire.hsms_data(st, fn, False, system, rng.randbytes(rng.choice([0, 1, 20, 200])))
+            cut = rng.choice([1, 3, 4, 5, 13, 14, len(frame) - 1, rng.randint(1, len(frame) - 1)])
+            cut = max(1, min(cut, len(frame) - 1))
+            inj.begin(rng.getrandbits(32), p=rng.choice([0.2, 0.4]))
+            n0 = len(sess.rig.delivered)
+            sess.rig.pipe.feed(frame[:cut])
+            pause = rng.choice([0.0, 0.0, 0.00005, 0.0002, 0.001])
+            if pause:
+                time.sleep(pause)
+            sess.rig.pipe.feed(frame[cut:])
+
+            def done():
+                return len(sess.rig.delivered) > n0
+            ok = sess.rig.wait(done, timeout=3.0, min_idle=0.3)
+            sig, yields, _ = inj.end()
+            sigs.add(sig)
+            ctx.count("oracle.two_segment_handover")
+            ctx.case(("D", sig), nontrivial=True)
+            if not ok and sess.rig.confirm_absent(done):
+                ctx.violation("frame-complete-in-the-buffer-but-not-delivered-until-more-traffic",
+                              {"frame_length": len(frame), "cut": cut, "pause_s": pause, "schedule_signature": sig})
+                sess.rig.close()
+                sess = Session(ctx)
+                continue
+            got = sess.rig.delivered[n0:]
+            if len(got) != 1 or got[0]["system"] != system:
+                ctx.violation("delivery-differs-from-sent", {"partition": "two segments", "delivered": [hex(m["system"]) for m in got], "sent": hex(system)})
+        ctx.count("handover.distinct_schedule_signatures", len(sigs))
+    finally:
+        inj.uninstall()
+        sess.rig.close()
+
+
 def _part_c(ctx, nstreams):
     """The same history oracle over a real loopback socket: the library's own TCP receiver thread (recv size, non-blocking
     reads) sits between the peer's writes and the framing. Frame lengths straddle the receiver's read size and its multiples."""
@@ -390,3 +441,4 @@ def run(ctx):
     _part_a(ctx, 600 if ctx.quick else 6000)
     _part_b(ctx)
     _part_c(ctx, 25 if ctx.quick else 600)
+    _part_d(ctx, 400 if ctx.quick else 20000)
